@@ -69,6 +69,10 @@ func (e Engine) Plan(tier string, seed uint64) []simrt.Case {
 	for i := 0; i < nLarge; i++ {
 		cs = append(cs, simrt.Case{Index: len(cs), Seed: simrt.Mix(seed, 18000, uint64(i)), Args: []int{-2}, Label: "large"})
 	}
+	// deeply nested right-hand sides: the stacks of the driver grow with the nesting depth
+	for i := 0; i < nLarge; i++ {
+		cs = append(cs, simrt.Case{Index: len(cs), Seed: simrt.Mix(seed, 18001, uint64(i)), Args: []int{-3}, Label: "deep"})
+	}
 	return cs
 }
 
@@ -199,6 +203,12 @@ func (e Engine) Run(t *simrt.Tape, c simrt.Case, x *simrt.Ctx) *simrt.Result {
 			if s == nil {
 				panic("large specification is not tokenizable (generator bug)")
 			}
+		} else if c.Args[0] == -3 {
+			s = gen.GenDeepSpec(t, []int{40, 70, 130, 260, 520, 1100}[t.Draw(6)]+t.Draw(9))
+			if s == nil {
+				panic("deep specification is not tokenizable (generator bug)")
+			}
+			res.Count("deeply_nested_specifications", 1)
 		} else {
 			s = gen.GenSpec(t, gen.GenOpts{})
 		}
@@ -206,7 +216,7 @@ func (e Engine) Run(t *simrt.Tape, c simrt.Case, x *simrt.Ctx) *simrt.Result {
 		if err := lay.Check(s); err != nil {
 			panic("layout self-check: " + err.Error())
 		}
-		if c.Args[0] == -2 {
+		if c.Args[0] == -2 || c.Args[0] == -3 {
 			// Multi-buffer input: choose a leading padding for which no lexeme other than the first
 			// starts at k*B-1, the input-computable signature of the dependency's double-reload
 			// defect (C13's known finding), so that reader defects cannot leak into this verdict.
